@@ -182,7 +182,7 @@ def check(ctx):
     cases = []
     for kind, src in REJECTED:
         cases.append((kind, {"main.oal": src}))
-    acc = progs.gen_programs(ctx, 30 if ctx.thorough else 8)
+    acc = progs.gen_programs(ctx, 90 if ctx.thorough else 8)
     for p in acc:
         files = {l.rsplit("/", 1)[1]: t for l, t in p["mods"].items()}
         cases.append(("accepted", files))
